@@ -41,9 +41,9 @@ def fingerprint(hs, cross_major):
     return sorted(outs, key=repr)
 
 
-def ob(name, ok, detail, unit):
+def ob(name, ok, detail, unit, model=None):
     return {"name": name, "tag": "property", "status": "unsat" if ok else "sat", "secs": 0.0, "backend": "structural",
-            "unit": unit, "path": [detail], "model": None}
+            "unit": unit, "path": [detail], "model": model}
 
 
 def extra_checks(world):
@@ -66,7 +66,8 @@ def extra_checks(world):
                 av, aw = D[v].arm_specs(enum), D[w].arm_specs(enum)
                 for val, (hname, hs) in av.items():
                     if val not in aw:
-                        out.append(ob(f"C19/tables-monotone[{pair}]/{enum}", False, f"type {val} of {v} missing in {w}", enum))
+                        out.append(ob(f"C19/tables-monotone[{pair}]/{enum}", False, f"type {val} of {v} missing in {w}", enum,
+                                      {"table_difference": {"enum": enum, "older": hcx.VTAG[v], "newer": hcx.VTAG[w], "values": [int(val)]}}))
                         continue
                     if enum == "Internal" and val == 22 and vt[w] == (2, 2) and vt[v] < (2, 2):
                         continue  # the stated exception: heartbeat response wakes in 2.0/2.1, pre-sleep notification in 2.2
@@ -76,7 +77,9 @@ def extra_checks(world):
                     out.append(ob(f"C19/spec-eq[{pair}]/{enum.lower()}[{val}]", fv == fw, f"{hname} vs {aw[val][0]}", f"{enum}[{val}]"))
             for enum in ("Command", "Presentation", "SetReq", "Internal", "Stream"):
                 tv, tw = D[v].table(enum), D[w].table(enum)
-                out.append(ob(f"C19/tables-monotone[{pair}]/{enum}", set(tv) <= set(tw), f"{len(tv)} <= {len(tw)} values", enum))
+                gone = sorted(int(x) for x in set(tv) - set(tw))
+                out.append(ob(f"C19/tables-monotone[{pair}]/{enum}", not gone, f"{len(tv)} <= {len(tw)} values", enum,
+                              {"table_difference": {"enum": enum, "older": hcx.VTAG[v], "newer": hcx.VTAG[w], "values": gone}} if gone else None))
             for const in ("INTERNAL_COMMAND_TYPE", "STRICT_SYSTEM_COMMAND_TYPES", "VALID_SYSTEM_COMMAND_TYPES", "NODE_ID_REQUEST_TYPES"):
                 cv, cw = D[v].mod.ns.get(const), D[w].mod.ns.get(const)
                 norm = lambda x: sorted(getattr(m, "value", m) for m in x) if isinstance(x, (set, frozenset, list, tuple)) else getattr(x, "value", x)  # noqa: E731
@@ -233,6 +236,18 @@ def confirm(desc, ta, tb):
 def replay(world, ob_):
     if ob_.get("relational"):
         return dict(ob_.get("model") or {}, confirmed=bool(ob_.get("model")))
+    td = (ob_.get("model") or {}).get("table_difference")
+    if td:
+        # a type number of the older table that the newer one lacks: one message of that type from a known node under both versions
+        va, vb = VSTR[td["older"]], VSTR[td["newer"]]
+        st = {"nodes": {1: {"children": {1: {"type": 6}}}}, "pending": {}, "outstanding": []}
+        for val in td["values"]:
+            line = {"Presentation": f"1;1;0;0;{val};x", "SetReq": f"1;1;1;0;{val};1", "Internal": f"1;255;3;0;{val};1", "Stream": f"1;255;4;0;{val};1",
+                    "Command": f"1;255;{val};0;0;1"}[td["enum"]]
+            ra, rb = _run_one(va, st, True, line), _run_one(vb, st, True, line)
+            if ra != rb:
+                return {"confirmed": True, "versions": [va, vb], "pre_state": "node 1 with child 1 known", "line": line, "observed": {va: [ra[0], ra[2]], vb: [rb[0], rb[2]]}}
+        return {"confirmed": False}
     # a conformance clause of a function that only some versions resolve to.  First as a difference between versions: the model's
     # pre-state and message under the unit's version and under each older one (the property's own exclusions applied) ...
     desc = dict(ob_.get("model") or {})
